@@ -298,19 +298,20 @@ class DeepONetDataset(torch.utils.data.Dataset):
 
     def __len__(self):
         """Returns the number of points of this dataset."""
-        # the least common multiple of both possible length will lead to the correct distribution
-        # of data points and hopefully managable effort
+        # every branch batch has to be combined with every trunk batch, to present
+        # all pairs of functions and points once
+        return self._number_of_branch_batches() * self._number_of_trunk_batches()
+
+    def _number_of_branch_batches(self):
         return int(
-            np.lcm(
-                int(
-                    np.lcm(len(self.branch_data_points), self.branch_batch_size)
-                    / self.branch_batch_size
-                ),
-                int(
-                    np.lcm(len(self.trunk_data_points), self.trunk_batch_size)
-                    / self.trunk_batch_size
-                ),
-            )
+            np.lcm(len(self.branch_data_points), self.branch_batch_size)
+            / self.branch_batch_size
+        )
+
+    def _number_of_trunk_batches(self):
+        return int(
+            np.lcm(len(self.trunk_data_points), self.trunk_batch_size)
+            / self.trunk_batch_size
         )
 
     def _slice_points(self, points, out_points, out_axis, batch_size, idx):
@@ -342,15 +343,18 @@ class DeepONetDataset(torch.utils.data.Dataset):
         idx : int
             The index of the desired point.
         """
+        # (the trunk batches are the fast running index)
+        branch_idx = idx // self._number_of_trunk_batches()
+        trunk_idx = idx % self._number_of_trunk_batches()
         branch_points, out_points = self._slice_points(
             self.branch_data_points,
             self.out_data_points,
             0,
             self.branch_batch_size,
-            idx,
+            branch_idx,
         )
         trunk_points, out_points = self._slice_points(
-            self.trunk_data_points, out_points, 1, self.trunk_batch_size, idx
+            self.trunk_data_points, out_points, 1, self.trunk_batch_size, trunk_idx
         )
         return (
             Points(branch_points, self.branch_space),
